@@ -124,6 +124,17 @@ impl Engine for DlEngine {
             }
             rules.push((owner, trusted, r));
         }
+        // the same rule text owned by several blocks, with the same or another trusted set: each
+        // copy derives facts with its own owner in the origin
+        if !rules.is_empty() && rng.chance(1, 3) {
+            let (owner, trusted, r) = rng.pick(&rules).clone();
+            let other_owner = *rng.pick(&IDS);
+            let t2 = if rng.chance(2, 3) { trusted.clone() } else { subset(&mut rng, 2, 6) };
+            rules.push((other_owner, t2, r.clone()));
+            if rng.chance(1, 3) {
+                rules.push((owner, trusted, r));
+            }
+        }
         let mut queries = Vec::new();
         for _ in 0..2 {
             let mut q = Gen { rng: &mut grng, cfg: &cfg, pool: &mut pool }.data_query();
